@@ -271,6 +271,11 @@ type server struct {
 	tokens int
 	lastShape *errShape // shape of the error returned for the last scripted request (nil: a response)
 	lastCode  int       // status of the last scripted response
+	// scripted token service (token scenarios only)
+	tokenScripted bool
+	tokenScript   []behaviour
+	tokenPos      int
+	tokenLog      []attemptRec
 }
 
 func (s *server) RoundTrip(req *http.Request) (*http.Response, error) {
@@ -278,6 +283,38 @@ func (s *server) RoundTrip(req *http.Request) (*http.Response, error) {
 		return &http.Response{StatusCode: code, Status: fmt.Sprintf("%d %s", code, http.StatusText(code)),
 			Proto: "HTTP/1.1", ProtoMajor: 1, ProtoMinor: 1, Header: http.Header{},
 			Body: io.NopCloser(strings.NewReader(body)), ContentLength: int64(len(body)), Request: req}
+	}
+	if req.URL.Host == tokenHost && s.tokenScripted {
+		// a scripted token service: the token request is a request of the same stack
+		b := behaviour{Kind: "S", Code: 200, Read: -1}
+		if s.tokenPos < len(s.tokenScript) {
+			b = s.tokenScript[s.tokenPos]
+		}
+		s.tokenPos++
+		rec := attemptRec{t: int64(time.Since(s.start)), method: req.Method, beh: b, url: req.URL.String(),
+			ctype: req.Header.Get("Content-Type"), clen: req.ContentLength}
+		if req.Body != nil {
+			if b.Read < 0 {
+				rec.got, _ = io.ReadAll(req.Body)
+			} else {
+				buf := make([]byte, b.Read)
+				n, _ := io.ReadFull(req.Body, buf)
+				rec.got = buf[:n]
+			}
+			req.Body.Close()
+		}
+		s.tokenLog = append(s.tokenLog, rec)
+		if b.Lat > 0 {
+			time.Sleep(time.Duration(b.Lat))
+		}
+		if sh := b.shape(); sh != nil {
+			return nil, sh.err
+		}
+		if b.Code != 200 {
+			return mk(b.Code, ""), nil
+		}
+		s.tokens++
+		return mk(200, fmt.Sprintf(`{"access_token":"tok%d","token":"tok%d"}`, s.tokens, s.tokens)), nil
 	}
 	if req.URL.Host == tokenHost {
 		if req.Body != nil {
@@ -1391,6 +1428,131 @@ func enumUploads(t *testing.T, maxLen int) {
 	rec(nil)
 }
 
+// ---------------------------------------------------------------- token requests through the same stack (oracle only)
+
+// tokenScenario: a Bearer challenge makes the auth client fetch a token with an OAuth2 POST (form
+// body) through the same retrying client; the token service fails a few times first.  The token
+// request is a request "sent again" by the stack: same clauses (whole body on every attempt,
+// attempts bounded, pauses within bounds, non-retryable answers not retried).
+type tokenCase struct {
+	Op          string      `json:"op"` // K
+	MaxRetry    int         `json:"max_retry"`
+	Min         int64       `json:"min"`
+	Max         int64       `json:"max"`
+	Tbl         []int64     `json:"tbl"`
+	Dflt        int64       `json:"dflt"`
+	TokenScript []behaviour `json:"token_script"`
+	Data        string      `json:"data"`
+}
+
+func tokenScenario(t *testing.T, c *tokenCase) {
+	id := run.NewID()
+	data, _ := hex.DecodeString(c.Data)
+	sc := &scriptCase{MaxRetry: c.MaxRetry, Min: c.Min, Max: c.Max, Tbl: c.Tbl, Dflt: c.Dflt}
+	var tokenLog, regLog []attemptRec
+	res := ""
+	synctest.Test(t, func(t *testing.T) {
+		srv := &server{start: time.Now(), tokenScripted: true, tokenScript: c.TokenScript,
+			script: []behaviour{{Kind: "S", Code: 401, Chal: 2, Read: -1}, {Kind: "S", Code: 201, Read: -1}}}
+		pol := sc.policy()
+		hc := &http.Client{Transport: &retry.Transport{Base: srv, Policy: func() retry.Policy { return pol }}}
+		ac := &auth.Client{Client: hc, Cache: auth.NewCache(), ForceAttemptOAuth2: true,
+			Credential: auth.StaticCredential("registry.example", auth.Credential{Username: "u", Password: "p"})}
+		req, err := http.NewRequest(http.MethodPut, "http://registry.example/v2/r/blobs/uploads/1", bytes.NewReader(data))
+		if err != nil {
+			panic(err)
+		}
+		resp, err := ac.Do(req)
+		res = classify(resp, err, srv.lastShape, "")
+		if resp != nil {
+			resp.Body.Close()
+		}
+		tokenLog, regLog = srv.tokenLog, srv.log
+	})
+	run.Evaluations++
+	run.Count("token_scenarios")
+	run.Count(fmt.Sprintf("token_attempts_%d", len(tokenLog)))
+	if len(tokenLog) > 1 {
+		run.Nontrivial(fmt.Sprintf("token %+v", *c))
+	}
+	fail := func(sig, msg string) {
+		run.OracleFail(id, sig, fmt.Sprintf("%s (token request): %s; result %s, %d token attempts", sig, msg, res, len(tokenLog)), c)
+	}
+	// the whole form on every attempt: the longest body read to EOF is the reference
+	var full []byte
+	for _, r := range tokenLog {
+		if r.beh.Read < 0 && len(r.got) > len(full) {
+			full = r.got
+		}
+	}
+	if full != nil {
+		f := string(full)
+		if !strings.Contains(f, "grant_type=password") || !strings.Contains(f, "username=u") || !strings.Contains(f, "password=p") {
+			fail("body-truncated", fmt.Sprintf("the token form %q lacks its fields", f))
+		}
+		for i, r := range tokenLog {
+			want := full
+			if r.beh.Read >= 0 && r.beh.Read < len(want) {
+				want = want[:r.beh.Read]
+			}
+			if !bytes.Equal(r.got, want) {
+				fail("body-truncated", fmt.Sprintf("attempt %d received %q, the form is %q and the service read up to %d", i, r.got, full, r.beh.Read))
+				break
+			}
+			if r.clen != int64(len(full)) || r.method != http.MethodPost || r.url != tokenLog[0].url || r.ctype != tokenLog[0].ctype {
+				fail("request-changed", fmt.Sprintf("attempt %d: %s %s Content-Length %d Content-Type %q", i, r.method, r.url, r.clen, r.ctype))
+				break
+			}
+		}
+	}
+	limit := c.MaxRetry + 1
+	if limit < 1 {
+		limit = 1
+	}
+	if len(tokenLog) > limit {
+		fail("too-many-attempts", fmt.Sprintf("%d attempts, MaxRetry=%d", len(tokenLog), c.MaxRetry))
+	}
+	for i := 0; i+1 < len(tokenLog); i++ {
+		if !retryableTruth("", tokenLog[i].beh) {
+			fail("nonretryable-retried", fmt.Sprintf("attempt %d got %s and was followed by another attempt", i, outcomeTruth("", tokenLog[i].beh)))
+		}
+		pause := tokenLog[i+1].t - (tokenLog[i].t + tokenLog[i].beh.Lat)
+		if c.Min <= c.Max && (pause < c.Min || pause > c.Max) {
+			fail("pause-bounds", fmt.Sprintf("pause after attempt %d is %d, outside [%d,%d]", i, pause, c.Min, c.Max))
+		}
+	}
+	// the registry: the request again, whole, after the token arrived
+	for i, r := range regLog {
+		if !bytes.Equal(r.got, data) {
+			fail("body-truncated", fmt.Sprintf("registry request %d received %d of %d bytes", i, len(r.got), len(data)))
+		}
+	}
+}
+
+func genToken(r *common.Rand) *tokenCase {
+	c := &tokenCase{Op: "K", MaxRetry: common.Pick(r, []int{0, 1, 2, 3, 5}), Min: int64(r.Intn(50)) * 2, Dflt: int64(r.Intn(500)) * 2}
+	c.Max = c.Min + int64(r.Intn(2000))*2
+	for i := r.Intn(3); i > 0; i-- {
+		c.Tbl = append(c.Tbl, int64(r.Intn(5000))*2)
+	}
+	for i := r.Intn(5); i > 0; i-- {
+		b := genBehaviour(r, false, true)
+		if b.Kind == "S" && (b.Code == 200 || b.Code >= 300 && b.Code < 400) {
+			b.Code = 503
+		}
+		if b.Read >= 0 {
+			b.Read = r.Intn(80)
+		}
+		c.TokenScript = append(c.TokenScript, b)
+	}
+	d := make([]byte, r.Intn(40))
+	for i := range d {
+		d[i] = byte(r.Intn(256))
+	}
+	c.Data = hex.EncodeToString(d)
+	return c
+}
+
 // ---------------------------------------------------------------- real net/http transport (oracle only)
 
 // realTransportScenario: the same stack over net/http's own Transport and an httptest server
@@ -1541,6 +1703,12 @@ func replayCases(t *testing.T) {
 				panic(err)
 			}
 			scriptCaseRun(t, &c)
+		case "K":
+			var c tokenCase
+			if err := json.Unmarshal(js, &c); err != nil {
+				panic(err)
+			}
+			tokenScenario(t, &c)
 		case "R":
 			var c realCase
 			if err := json.Unmarshal(js, &c); err != nil {
@@ -1618,6 +1786,9 @@ func TestVerif(t *testing.T) {
 	}
 	for i := 0; i < run.Scale(6, 120); i++ {
 		realTransportScenario(genReal(r))
+	}
+	for i := 0; i < run.Scale(400, 20000); i++ {
+		tokenScenario(t, genToken(r))
 	}
 	enumUploads(t, run.Scale(4, 6))
 	nScripts := run.Scale(2500, 500000)
